@@ -115,6 +115,9 @@ pub fn check(v: &View, vd: &mut Verdict) {
                         (p.actor == Some(a) || matches!(p.what, OpWhat::Publish(_))) && p.begin < o.begin && p.end_or_max() > z && (p.client, p.op) != (o.client, o.op)
                             && matches!(p.what, OpWhat::Send | OpWhat::Call | OpWhat::Halt | OpWhat::TryHalt | OpWhat::AwaitClone | OpWhat::Publish(_) | OpWhat::Ping)
                     });
+                    // a publication that the broker may still be fanning out holds upgraded senders of its subscribers
+                    let subscribed = v.ops.iter().any(|p| matches!(p.what, OpWhat::Subscribe(_)) && p.actor == Some(a));
+                    let temp = temp || (subscribed && v.ops.iter().any(|p| matches!(p.what, OpWhat::Publish(_)) && p.begin < o.begin));
                     let waiting_timer = matches!(v.rt[a].mailbox, Mailbox::Bounded(_))
                         && v.hist.iter().any(|e| matches!(&e.kind, EvKind::TimerReg { actor, kind: TimerKind::IntervalWith | TimerKind::DelayedSend, .. } if *actor == a));
                     if !temp && !waiting_timer {
